@@ -442,6 +442,33 @@ def step (ds : DState) (line : String) : DState × String :=
           | _ => (acc.1, acc.2 ++ ["bad-item"])) (0, [])
         " ".intercalate outs ++ "\t" ++ " ".intercalate souts
       | _, _, _, _, _ => "bad-op")
+  | ["nwrite", dn, ver, sys, comp, link, key, items] =>
+    (ds, match ver.toNat?, u8 sys, u8 comp, u8 link, keyOf key with
+      | some v, some s, some c, some l, some k =>
+        let cfg0 : SWCfg := { version := v, sysId := s, compId := c, linkId := l, key := k }
+        match swInitialize cfg0 with
+        | .error _ => "init-err"
+        | .ok cfg =>
+        let d := wdialect (ds.get dn)
+        let (_, outs) := (items.splitOn ";").foldl (fun (acc : SWState × List String) it =>
+          match it.splitOn "@" with
+          | [m, t] => (match decMsg m, t.toNat? with
+            | some mm, some tt =>
+              let (st', r) := swWrite H d cfg acc.1 (UInt64.ofNat tt) mm
+              (st', acc.2 ++ [match r with | .ok bs => "ok:" ++ toHex bs | .error e => "err:" ++ encWErr e])
+            | _, _ => (acc.1, acc.2 ++ ["bad-item"]))
+          | _ => (acc.1, acc.2 ++ ["bad-item"])) ({}, [])
+        let (_, souts) := (items.splitOn ";").foldl (fun (acc : Nat × List String) it =>
+          match it.splitOn "@" with
+          | [m, t] => (match decMsg m, t.toNat? with
+            | some mm, some tt =>
+              let (n', r) := Spec.swWrite H d cfg0 acc.1 (UInt64.ofNat tt) mm
+              (n', acc.2 ++ [match r with | .ok bs => "ok:" ++ toHex bs | .error e => "err:" ++ encWErr e])
+            | _, _ => (acc.1, acc.2 ++ ["bad-item"]))
+          | _ => (acc.1, acc.2 ++ ["bad-item"])) (0, [])
+        let keep (l : List String) := let k := l.filter (·.startsWith "ok:"); if k.isEmpty then "-" else " ".intercalate k
+        keep outs ++ "\t" ++ keep souts
+      | _, _, _, _, _ => "bad-op")
   | ["evcheck", mode, dn, key, stream, pre, post] =>
     (ds, match keyOf key, decStream stream with
       | some k, some s =>
